@@ -1,12 +1,281 @@
 package main
 
 import (
+	"encoding/json"
+	"flag"
 	"fmt"
-	"golang.org/x/tools/go/packages"
+	"os"
+	"path/filepath"
+	"sort"
+	"strconv"
+	"strings"
+	"time"
 )
 
+var verifRoot = "/verif"
+
+func hasTag(tags []string, p string) bool {
+	for _, t := range tags {
+		if t == p {
+			return true
+		}
+	}
+	return false
+}
+
+func contractTags(c *FuncContract) map[string]bool {
+	out := map[string]bool{}
+	add := func(cl []*Clause) {
+		for _, c := range cl {
+			for _, t := range c.Tags {
+				out[t] = true
+			}
+		}
+	}
+	add(c.Requires)
+	add(c.Ensures)
+	add(c.Panics)
+	for _, l := range c.Loops {
+		add(l.Invariants)
+	}
+	for _, a := range c.Actions {
+		if a.Clause != nil {
+			for _, t := range a.Clause.Tags {
+				out[t] = true
+			}
+		}
+	}
+	for _, t := range c.SafetyTags {
+		out[t] = true
+	}
+	return out
+}
+
 func main() {
-	cfg := &packages.Config{Mode: packages.LoadAllSyntax, Dir: "/repo", BuildFlags: []string{"-tags=verif"}}
-	pkgs, err := packages.Load(cfg, "./...")
-	fmt.Println(len(pkgs), err)
+	if len(os.Args) < 2 {
+		fmt.Fprintln(os.Stderr, "usage: govc check|units ...")
+		os.Exit(2)
+	}
+	if v := os.Getenv("VERIF_ROOT"); v != "" {
+		verifRoot = v
+	}
+	switch os.Args[1] {
+	case "units":
+		cmdUnits()
+	case "check":
+		os.Exit(cmdCheck(os.Args[2:]))
+	case "parse":
+		e, err := ParseSpec(strings.Join(os.Args[2:], " "))
+		fmt.Printf("%#v %v\n", e, err)
+	default:
+		fmt.Fprintln(os.Stderr, "unknown command")
+		os.Exit(2)
+	}
+}
+
+var repoDirs = []string{".", "http", "chi", "gin", "echo", "fiber"}
+
+func cmdUnits() {
+	p, err := LoadProgram("/repo", repoDirs)
+	if err != nil {
+		fmt.Println("load error:", err)
+		os.Exit(1)
+	}
+	var keys []string
+	for k, u := range p.Units {
+		if u.Contract != nil {
+			keys = append(keys, k)
+		}
+	}
+	sort.Strings(keys)
+	for _, k := range keys {
+		u := p.Units[k]
+		tags := contractTags(u.Contract)
+		var ts []string
+		for t := range tags {
+			ts = append(ts, t)
+		}
+		sort.Strings(ts)
+		fmt.Printf("%s  [%s]\n", k, strings.Join(ts, ","))
+	}
+}
+
+type checkOpts struct {
+	prop, unit, tier, repo string
+	seed                   int
+	timeout, par           int
+	updateLedger           bool
+	dump                   string
+	verbose                bool
+	all                    bool
+	allMods                bool
+}
+
+func cmdCheck(args []string) int {
+	fs := flag.NewFlagSet("check", flag.ExitOnError)
+	var o checkOpts
+	fs.StringVar(&o.prop, "prop", "", "property id (C01..C20)")
+	fs.StringVar(&o.unit, "unit", "", "only this unit (substring match)")
+	fs.StringVar(&o.tier, "tier", "quick", "quick|thorough")
+	fs.StringVar(&o.repo, "repo", "/repo", "repository root")
+	fs.IntVar(&o.timeout, "timeout", 0, "per-obligation solver timeout (s)")
+	fs.IntVar(&o.par, "par", 5, "obligations in parallel")
+	fs.BoolVar(&o.updateLedger, "update-ledger", false, "rewrite the ledger entries for this property from this run")
+	fs.StringVar(&o.dump, "dump", "", "directory to dump all queries")
+	fs.BoolVar(&o.verbose, "v", false, "verbose")
+	fs.BoolVar(&o.all, "all", false, "all units with a contract")
+	fs.BoolVar(&o.allMods, "allmods", false, "load the integration sub-modules too")
+	fs.Parse(args)
+	if s := os.Getenv("VERIF_SEED"); s != "" {
+		o.seed, _ = strconv.Atoi(s)
+	}
+	if t := os.Getenv("VERIF_TIER"); t != "" && (t == "quick" || t == "thorough") {
+		o.tier = t
+	}
+	if o.timeout == 0 {
+		if o.tier == "thorough" {
+			o.timeout = 60
+		} else {
+			o.timeout = 20
+		}
+	}
+	return runCheck(&o)
+}
+
+type Ledger map[string][]string
+
+func loadLedger() Ledger {
+	l := Ledger{}
+	data, err := os.ReadFile(filepath.Join(verifRoot, "obligations.lock.json"))
+	if err == nil {
+		json.Unmarshal(data, &l)
+	}
+	return l
+}
+
+type KnownFinding struct {
+	Property   string `json:"property"`
+	Obligation string `json:"obligation"`
+	What       string `json:"what"`
+	Status     string `json:"status"` // open | fixed
+	Commit     string `json:"commit,omitempty"`
+	Input      string `json:"failing_input,omitempty"`
+}
+
+func loadKnown() []KnownFinding {
+	var k struct {
+		Findings []KnownFinding `json:"findings"`
+	}
+	data, err := os.ReadFile(filepath.Join(verifRoot, "known_findings.json"))
+	if err == nil {
+		json.Unmarshal(data, &k)
+	}
+	return k.Findings
+}
+
+func oblTagged(o *Obligation, prop string) bool { return prop == "" || hasTag(o.Tags, prop) }
+
+func runCheck(o *checkOpts) int {
+	start := time.Now()
+	dirs := []string{"."}
+	if o.prop == "C16" || o.prop == "" || o.allMods {
+		dirs = repoDirs
+	}
+	prog, err := LoadProgram(o.repo, dirs)
+	type genFail = struct{ unit, msg string }
+	var genFails []genFail
+	var results []*UnitResult
+	var unitNames []string
+	loadErr := ""
+	if err != nil {
+		loadErr = err.Error()
+	} else {
+		var keys []string
+		for k, u := range prog.Units {
+			if u.Contract == nil || u.Contract.NoCheck {
+				continue
+			}
+			if o.unit != "" && !strings.Contains(k, o.unit) {
+				continue
+			}
+			if o.prop != "" && !o.all {
+				if !contractTags(u.Contract)[o.prop] {
+					continue
+				}
+			}
+			keys = append(keys, k)
+		}
+		sort.Strings(keys)
+		for _, k := range keys {
+			u := prog.Units[k]
+			x := NewUnit(prog, u)
+			r := x.Verify()
+			results = append(results, r)
+			unitNames = append(unitNames, r.Pkg+"."+r.Unit)
+			if r.Err != "" {
+				genFails = append(genFails, genFail{r.Pkg + "." + r.Unit, r.Err})
+			}
+		}
+		// contracts that name functions which no longer exist
+		for path, cs := range prog.Contracts {
+			for name, c := range cs.Funcs {
+				if _, ok := prog.Units[unitKey(path, name)]; !ok && !c.NoCheck && !isAbstractName(name) {
+					if o.prop == "" || contractTags(c)[o.prop] {
+						genFails = append(genFails, genFail{name, "function under contract not found in " + path})
+					}
+				}
+			}
+		}
+	}
+	scratch, _ := os.MkdirTemp(scratchBase(), "govc.")
+	defer os.RemoveAll(scratch)
+	// keep only obligations relevant to the property (plus covers of the selected units)
+	for _, r := range results {
+		var keep []*Obligation
+		for _, ob := range r.Obls {
+			if ob.IsCover || oblTagged(ob, o.prop) {
+				keep = append(keep, ob)
+			}
+		}
+		r.Obls = keep
+	}
+	dischargeAll(results, scratch, o.seed, o.timeout, o.par, o.tier == "thorough")
+	if o.dump != "" {
+		os.MkdirAll(o.dump, 0o755)
+		for _, r := range results {
+			for _, ob := range r.Obls {
+				os.WriteFile(filepath.Join(o.dump, sanitizeFile(ob.Name)+".smt2"), []byte(r.queryBody(ob)+"(check-sat)\n"), 0o644)
+			}
+		}
+	}
+	return report(o, prog, results, genFailsToMap(genFails), loadErr, start)
+}
+
+type gf = struct{ unit, msg string }
+
+func genFailsToMap(g []struct{ unit, msg string }) map[string]string {
+	m := map[string]string{}
+	for _, x := range g {
+		m[x.unit] = x.msg
+	}
+	return m
+}
+
+func isAbstractName(n string) bool {
+	return strings.HasPrefix(n, "fn:") || strings.HasPrefix(n, "field:") || strings.HasPrefix(n, "fnvar:") || strings.Contains(n, ".") && false
+}
+
+func scratchBase() string {
+	if d := os.Getenv("VERIF_SCRATCH"); d != "" {
+		os.MkdirAll(d, 0o755)
+		return d
+	}
+	d := filepath.Join(verifRoot, "scratch")
+	os.MkdirAll(d, 0o755)
+	return d
+}
+
+func sanitizeFile(s string) string {
+	r := strings.NewReplacer("/", "_", "#", "-", "[", "-", "]", "", "*", "", " ", "_", "$", "_", "~", "-", ":", "_", "(", "", ")", "")
+	return r.Replace(s)
 }
